@@ -194,6 +194,46 @@ def run(ctx):
                                     "class": _codec.cls_name(classes, i), "got": o[:2]})
                 elif not (o[0] == "ok" and o[1] == to_json(vals[i][0])):
                     bad.append({"what": "concurrent decoding differs", "class": _codec.cls_name(classes, i), "got": str(o)[:200]})
+    # (iv) deterministic line-level schedules: two threads, cold caches, at most two preemptions at
+    # chosen traced lines of kio/serial/*.py (both build and use writer+reader of classes with
+    # tagged fields; same class and different classes)
+    n_sched = 0
+    sched_pairs = []
+    tg = [i for i in pool if i in tagged and ref[(i, 0)][0] == "ok"][: (3 if quick else 8)]
+    for a in tg:
+        for b in ([a] + [x for x in tg if x != a][:1]):
+            sched_pairs.append((a, b))
+    grid = [i / 10 for i in range(1, 10)] if quick else [i / 24 for i in range(1, 24)]
+    scheds = [(p0, p1) for p0 in grid for p1 in grid][:: (3 if quick else 1)]
+
+    def run_pair(pair):
+        a, b = pair
+        spec = {"jobs": [[a, to_json(vals[a][0]), ref[(a, 0)][1]], [b, to_json(vals[b][1] if ref[(b, 1)][0] == "ok" else vals[b][0]),
+                                                                    ref[(b, 1)][1] if ref[(b, 1)][0] == "ok" else ref[(b, 0)][1]]],
+                "schedules": scheds, "classes": ctx["c19_classes"]}
+        p = subprocess.run([common.PY, str(common.VERIF / "harness" / "sched_worker.py")], input=json.dumps(spec),
+                           capture_output=True, text=True, env=common.child_env(), timeout=1500)
+        if p.returncode != 0:
+            return pair, None, p.stderr[-1500:]
+        return pair, json.loads(p.stdout), ""
+
+    with ThreadPoolExecutor(8) as ex:
+        sched_out = list(ex.map(run_pair, sched_pairs))
+    sched_steps = []
+    for (a, b), out, err in sched_out:
+        if out is None:
+            bad.append({"what": "deterministic scheduler failed to run", "detail": err})
+            continue
+        sched_steps.append(out["steps"])
+        kb = 1 if ref[(b, 1)][0] == "ok" else 0
+        want = [[ref[(a, 0)][1], to_json(vals[a][0]), True], [ref[(b, kb)][1], to_json(vals[b][kb]), True]]
+        for sc, res in zip([None] + scheds, [out["base"]] + out["results"]):
+            n_sched += 1
+            if res != want:
+                bad.append({"what": "a two-thread schedule with preemptions inside kio.serial changed a result",
+                            "classes": [_codec.cls_name(classes, a), _codec.cls_name(classes, b)],
+                            "schedule_fraction_of_traced_lines": sc, "got": str(res)[:400]})
+    n_ops += n_sched * 4
     # tie to the pure model: the cold results are what Coq's encoder computes
     model_cases = []
     for (i, k), o in ref.items():
@@ -218,12 +258,13 @@ def run(ctx):
         "rule": "fresh-interpreter histories (random orders of creating/using readers and writers of 6-12 classes incl. "
                 "faulted writes) compared with cold single-class results; a stream fault at EVERY write call and every read "
                 "call followed by reuse of the cached closure; 8 threads behind a barrier with a 1 us switch interval on a cold "
-                "cache; distinct = number of distinct histories / fault sweeps / thread runs",
+                "cache; two-thread deterministic schedules with two preemptions at traced lines of kio/serial (sys.settrace); distinct = number of distinct histories / fault sweeps / thread runs",
         "histories": n_hist, "fault_sweeps": 2 * len(fault_classes), "thread_runs": n_thr_runs,
+        "deterministic_schedules": n_sched, "traced_lines_per_thread": sched_steps[:3],
         "classes_with_tagged_fields_in_pool": len([i for i in pool if i in tagged]),
         "static_scan_shared_mutable_state": static,
         "samples": [{"class": _codec.cls_name(classes, pool[0]), "value": to_json(vals[pool[0]][0])}],
         "property_failures_on_implementation": len(bad), "correspondence_disagreements": len(failing),
     }
     return {"violations": viol, "coverage": cov,
-            "trusted_base": ["partial: real preemption at bytecode level, the GIL and functools.cache's C implementation are sampled, not modelled"]}
+            "trusted_base": ["partial: preemption below source-line granularity, the GIL and functools.cache's C implementation are sampled, not modelled"]}
